@@ -510,19 +510,21 @@ func (fr *Frame) callBuiltin(site ssa.Instruction, b *ssa.Builtin, c *ssa.CallCo
 			h := fc.leafHeap(st, lf.Sort)
 			row := fc.sc.Fresh("approw", ArrSort(SInt, lf.Sort))
 			oldRow := fc.sc.Define("oldrow", Select(h, SArr(s)))
-			// forall i in [0, len(s)*w): only slots with matching leaf offset (all slots for width-1)
-			fc.sc.Assert(mk(SBool, fmt.Sprintf("(forall ((i!q Int)) (! (=> (and (<= 0 i!q) (< i!q %s)) (= (select %s i!q) (select %s (+ %s i!q)))) :pattern ((select %s i!q))))",
-				Mul(SLen(s), IntLit(w)).S, row.S, oldRow.S, SOff(s).S, row.S)))
+			// one fact per leaf heap, triggered by ANY read of the new row:
+			//   row[k] = old[off+k]            for 0 <= k < len(s)*w
+			//   row[k] = add[offa + k - base]  for base <= k < base + addlen*w   (base = len(s)*w)
+			base := fc.sc.Define("appbase", Mul(SLen(s), IntLit(w)))
+			lim := fc.sc.Define("applim", Add(base, Mul(addLen, IntLit(w))))
+			var addTerm string
 			if isStr {
-				fc.sc.Assert(mk(SBool, fmt.Sprintf("(forall ((i!q Int)) (! (=> (and (<= 0 i!q) (< i!q %s)) (= (select %s (+ %s i!q)) (strbyte %s i!q))) :pattern ((select %s (+ %s i!q)))))",
-					addLen.S, row.S, SLen(s).S, args[1].T.S, row.S, SLen(s).S)))
+				addTerm = fmt.Sprintf("(strbyte %s (- k!q %s))", args[1].T.S, base.S)
 			} else {
 				a := args[1].T
 				addRow := fc.sc.Define("addrow", Select(h, SArr(a)))
-				base := fc.sc.Define("appbase", Mul(SLen(s), IntLit(w)))
-				fc.sc.Assert(mk(SBool, fmt.Sprintf("(forall ((i!q Int)) (! (=> (and (<= 0 i!q) (< i!q %s)) (= (select %s (+ %s i!q)) (select %s (+ %s i!q)))) :pattern ((select %s (+ %s i!q)))))",
-					Mul(addLen, IntLit(w)).S, row.S, base.S, addRow.S, SOff(a).S, row.S, base.S)))
+				addTerm = fmt.Sprintf("(select %s (+ %s (- k!q %s)))", addRow.S, SOff(a).S, base.S)
 			}
+			fc.sc.Assert(mk(SBool, fmt.Sprintf("(forall ((k!q Int)) (! (and (=> (and (<= 0 k!q) (< k!q %s)) (= (select %s k!q) (select %s (+ %s k!q)))) (=> (and (<= %s k!q) (< k!q %s)) (= (select %s k!q) %s))) :pattern ((select %s k!q))))",
+				base.S, row.S, oldRow.S, SOff(s).S, base.S, lim.S, row.S, addTerm, row.S)))
 			fc.setHeap(st, leafHeapName(lf.Sort), Store(h, obj, row))
 		}
 		return []Val{scalar(MkSlice(obj, IntLit(0), newLen, newCap))}
